@@ -206,9 +206,9 @@ theorem tamper_hop_stopped_partial (mac : MacFn) (net : Net) (now src dst : Nat)
     (hmid : ∀ e ∈ m1, e.ia ≠ src ∧ e.ia ≠ dst ∧ expired now ts e.hop.exp = false)
     (hexp0 : expired now ts e0.hop.exp = false)
     (htam : HopTamper cd (hopOf ek.hop) h')
-    (hr : InRange ⟨cd, false, usedSeg cd (extractBeta (Scion.SegID.updateSegID seg0 (pfx e0.hop.mac)) (sig m1))
+    (hr : InRange ⟨cd, false, usedSeg cd (Scion.SegID.extractBeta (Scion.SegID.updateSegID seg0 (pfx e0.hop.mac)) (sig m1))
             (hopOf ek.hop), ts⟩ (hopOf ek.hop))
-    (hr' : InRange ⟨cd, false, usedSeg cd (extractBeta (Scion.SegID.updateSegID seg0 (pfx e0.hop.mac)) (sig m1))
+    (hr' : InRange ⟨cd, false, usedSeg cd (Scion.SegID.extractBeta (Scion.SegID.updateSegID seg0 (pfx e0.hop.mac)) (sig m1))
             h', ts⟩ h')
     (fuel : Nat) :
     ∃ o tr, run mac net now src dst (fuel + 2 + m1.length) src 0 .host
@@ -220,17 +220,17 @@ theorem tamper_hop_stopped_partial (mac : MacFn) (net : Net) (now src dst : Nat)
   rw [show fuel + 2 + m1.length = fuel + 1 + 1 + m1.length by omega, hpre]
   obtain ⟨hml, hin0, _⟩ := fl_last mac net core cd ts m1 e0 ek seg0 hFL
   -- the genuine packet at the AS of ek, and the tampered one
-  have hing : ∀ h : Hop, ingUpd ⟨[], ⟨cd, false, extractBeta (Scion.SegID.updateSegID seg0 (pfx e0.hop.mac)) (sig m1), ts⟩,
+  have hing : ∀ h : Hop, ingUpd ⟨[], ⟨cd, false, Scion.SegID.extractBeta (Scion.SegID.updateSegID seg0 (pfx e0.hop.mac)) (sig m1), ts⟩,
         hopOf e0.hop :: m1.map (fun e => hopOf e.hop), h, tlh, []⟩ (.ext (inF cd ek)) false =
-      ⟨[], ⟨cd, false, usedSeg cd (extractBeta (Scion.SegID.updateSegID seg0 (pfx e0.hop.mac)) (sig m1)) h, ts⟩,
+      ⟨[], ⟨cd, false, usedSeg cd (Scion.SegID.extractBeta (Scion.SegID.updateSegID seg0 (pfx e0.hop.mac)) (sig m1)) h, ts⟩,
         hopOf e0.hop :: m1.map (fun e => hopOf e.hop), h, tlh, []⟩ := by
     intro h
     cases cd <;> simp [ingUpd, usedSeg, Arrival.ifid, hin0]
   have hrej := tampered_current_hop_not_forwarded mac (cfgOf net ek.ia) hinj now (.ext (inF cd ek))
     (ek.ia == src) (ek.ia == dst)
-    ⟨[], ⟨cd, false, extractBeta (Scion.SegID.updateSegID seg0 (pfx e0.hop.mac)) (sig m1), ts⟩,
+    ⟨[], ⟨cd, false, Scion.SegID.extractBeta (Scion.SegID.updateSegID seg0 (pfx e0.hop.mac)) (sig m1), ts⟩,
       hopOf e0.hop :: m1.map (fun e => hopOf e.hop), hopOf ek.hop, tlh, []⟩
-    ⟨[], ⟨cd, false, extractBeta (Scion.SegID.updateSegID seg0 (pfx e0.hop.mac)) (sig m1), ts⟩,
+    ⟨[], ⟨cd, false, Scion.SegID.extractBeta (Scion.SegID.updateSegID seg0 (pfx e0.hop.mac)) (sig m1), ts⟩,
       hopOf e0.hop :: m1.map (fun e => hopOf e.hop), h', tlh, []⟩ false
     (by simp [determinePeer]) (by rw [hing]; exact hr) (by rw [hing]; exact hr')
     (by rw [hing, usedSeg_hopOf]; exact macOk_of_macAt mac net ts _ ek cd false hml)
@@ -248,8 +248,8 @@ theorem tamper_hop_stopped_partial (mac : MacFn) (net : Net) (now src dst : Nat)
       rcases htam with ⟨hm, _⟩ | ⟨_, h1, h2, h3, hp⟩
       · left; exact hm
       · right
-        have hus : usedSeg cd (extractBeta (Scion.SegID.updateSegID seg0 (pfx e0.hop.mac)) (sig m1)) h' =
-            usedSeg cd (extractBeta (Scion.SegID.updateSegID seg0 (pfx e0.hop.mac)) (sig m1)) (hopOf ek.hop) := by
+        have hus : usedSeg cd (Scion.SegID.extractBeta (Scion.SegID.updateSegID seg0 (pfx e0.hop.mac)) (sig m1)) h' =
+            usedSeg cd (Scion.SegID.extractBeta (Scion.SegID.updateSegID seg0 (pfx e0.hop.mac)) (sig m1)) (hopOf ek.hop) := by
           rcases hp with hcd | hp
           · subst hcd; rfl
           · cases cd <;> simp [usedSeg, hp]
